@@ -156,6 +156,8 @@ Definition c06_ok : bool :=
   (* without cancel, closing the inputs and draining leads to closure *)
   (if negb cancelled_run && inputs_closed && negb (N.eqb (sched c) 3) && negb (Nat.eqb nin 0)
    then outputs_closed ms else true) &&
+  (* a Join of no inputs closes its output at once (nothing to wait for), cancelled or not *)
+  (match st with SJoin 0 => outputs_closed ms | _ => true end) &&
   (* cancel + inputs closed: everything exits and closes, with or without receives *)
   (if cancelled_run && inputs_closed && (N.eqb (sched c) 3 || outputs_closed (before_end ms))
    then Nat.eqb live_at_end 0 && outputs_closed ms else true).
